@@ -471,14 +471,16 @@ def fit_trace(task):
     def base(genotype, reads, llk, h, j, n_alleles, log_unique_haplotypes, inbreeding=0, temp=1, read_counts=None, cache=None):
         before = codes(genotype)
         r = o_base(genotype, reads, llk, h, j, n_alleles, log_unique_haplotypes, inbreeding, temp, read_counts, cache)
-        ev.append({"op": "Mutate", "h": int(h) + 1, "j": int(j) + 1, "t": q(temp), "before": before, "after": codes(genotype), "llk0": q(llk), "llk1": q(r[0])})
+        ev.append({"op": "Mutate", "h": int(h) + 1, "j": int(j) + 1, "t": q(temp), "before": before, "after": codes(genotype), "llk0": q(llk), "llk1": q(r[0]),
+                   "luh": q(log_unique_haplotypes), "inb": q(inbreeding)})
         return r
 
     def istep(genotype, reads, llk, log_unique_haplotypes, inbreeding=0, interval=None, step_type=0, temp=1, read_counts=None, cache=None):
         before = codes(genotype)
         r = o_int(genotype, reads, llk, log_unique_haplotypes, inbreeding, interval, step_type, temp, read_counts, cache)
         ev.append({"op": "Interval", "kind": "rec" if step_type == 0 else "dos", "lo": int(interval[0]), "hi": int(interval[1]), "t": q(temp),
-                   "before": before, "after": codes(genotype), "llk0": q(llk), "llk1": q(r[0])})
+                   "before": before, "after": codes(genotype), "llk0": q(llk), "llk1": q(r[0]),
+                   "luh": q(log_unique_haplotypes), "inb": q(inbreeding)})
         return r
 
     def swap(**k):
